@@ -1645,3 +1645,12 @@ Proof.
   assert (Ra : (0 <= Q2R (f_dk2 a))%R) by (replace 0%R with (Q2R 0) by (unfold Q2R; simpl; lra); now apply Qle_Rle).
   rewrite (fitR_lt1_iff _ _ Ra). unfold fit_lt1. apply Nat.eqb_eq.
 Qed.
+
+(* fitness is never exactly 1.0 in real arithmetic: "<= 1.0" would select the same members as "< 1.0" *)
+Theorem fitR_le1_iff r d : (0 <= d)%R -> ((fitR r d <= 1)%R <-> r = 0%nat).
+Proof.
+  intro Hd. unfold fitR. destruct (density_bounds d Hd) as [A B]. split.
+  - intro H. destruct r as [|r]; [reflexivity|exfalso].
+    rewrite S_INR in H. pose proof (pos_INR r). lra.
+  - intros ->. simpl. lra.
+Qed.
